@@ -1,5 +1,5 @@
 (* Props/C09.v — Graph type check accepts exactly the consistent graphs. *)
-From NIR Require Import Model.Graph Proofs.GraphProofs.
+From NIR Require Import Model.Graph Proofs.GraphProofs Proofs.RenameProofs.
 From Coq Require Import Permutation.
 
 (* The check returns True precisely when every edge joins a source whose output shape is
@@ -28,6 +28,13 @@ Example c09_example :
   check_types (Graph [("a", a); ("b", b)] [("a", "a"); ("a", "b")] None None VNone) = Err ValueError.
 Proof. split; reflexivity. Qed.
 
+(* NODE NAMES ARE OPAQUE: renaming the children by ANY injective function on strings (and the edge end points with them) does
+   not change the verdict — no name (dotted, "->", digits, a prefix of another name ...) has a special meaning; injectivity is
+   necessary (RenameProofs.rename_not_injective_counterexample) *)
+Theorem c09_names_are_opaque : forall f g, injective f -> check_types (rename_graph f g) = check_types g.
+Proof. exact check_rename_graph. Qed.
+
 Print Assumptions c09_sound_complete.
+Print Assumptions c09_names_are_opaque.
 Print Assumptions c09_never_false.
 Print Assumptions c09_order_independent.
